@@ -117,11 +117,11 @@ func supervise() {
 			why := "process crashed: "
 			select {
 			case r = <-done:
-			case <-time.After(60 * time.Second):
+			case <-time.After(150 * time.Second):
 				_ = ch.cmd.Process.Kill()
 				r = <-done
 				r.err = io.ErrUnexpectedEOF
-				why = "hang (no result within 60 s): "
+				why = "hang (no result within 150 s): "
 			}
 			if r.err != nil || len(bytes.TrimSpace(r.b)) == 0 {
 				_ = ch.cmd.Process.Kill()
